@@ -791,6 +791,40 @@ def _matrix(rng, n, rows, kind):
 TALL_ROWS = (255, 257, 1023, 1025, 2047, 2049, 4095, 4097, 8191, 8193, 10000, 16385)
 
 
+WIDE = ((1025, False), (1026, True), (1024, False), (1025, True), (2049, False), (1027, True))
+
+
+def _check_wide(n, io):
+    """"every number of input columns": a wide table (more columns than the block sizes a vectorised implementation
+    would use), degree 2, two rows; values of kind 'poly' against PolynomialFeatures (exact integer products)"""
+    import numpy
+    from mlinsights.mlmodel.extended_features import ExtendedFeatures
+    from sklearn.preprocessing import PolynomialFeatures
+    X = _tall(2, n, "int").astype(float)
+    X[1] = X[1] + 1.0
+    ref = numpy.asarray(PolynomialFeatures(degree=2, interaction_only=io, include_bias=True).fit_transform(X))
+    site = "ExtendedFeatures[poly,%s]" % ("interaction_only" if io else "all")
+    try:
+        # the output buffer of `transform` is uninitialised memory: fill the allocator's free list with a recognisable
+        # value first, so that a column the code never writes does not hold the right numbers by accident
+        junk = numpy.full(ref.shape, 12345.0)
+        del junk
+        ext = ExtendedFeatures(kind="poly", poly_degree=2, poly_interaction_only=io, poly_include_bias=True)
+        out = numpy.asarray(ext.fit(X).transform(X))
+    except Exception as e:  # noqa: BLE001
+        return [(site + ".transform:raises", "transform raises %s on %d input columns" % (type(e).__name__, n),
+                 "%s: %s" % (type(e).__name__, e), "the %d columns of PolynomialFeatures" % ref.shape[1])]
+    if out.shape != ref.shape or int(ext.n_output_features_) != ref.shape[1]:
+        return [(site + ".n_output_features_", "number of output columns for %d input columns" % n,
+                 [int(ext.n_output_features_), list(out.shape)], list(ref.shape))]
+    neq = numpy.argwhere(~(out == ref))
+    if len(neq):
+        r, j = (int(v) for v in neq[0])
+        return [(site + ".transform:column-differs", "column %d of %d differs from PolynomialFeatures for %d input columns "
+                 "(%d cells differ)" % (j, ref.shape[1], n, len(neq)), out[:, j].tolist(), ref[:, j].tolist())]
+    return []
+
+
 def _tall(rows, n, kind):
     """deterministic exact matrix with `rows` rows (not stored in replays: rebuilt from (rows, n, kind))"""
     import numpy
@@ -814,6 +848,12 @@ def search(ctx, hints):
             for key, what, obs, req in bad:
                 vs.append(Violation(key, what, {"n": n, "degree": degree, "interaction_only": io, "flag": "bool",
                                                 "include_bias": bias, "X": [], "tall_rows": rows, "dtype": kind}, obs, req))
+    for n, io in (WIDE if ctx.thorough else WIDE[:2]):
+        evals += 1
+        nontriv.add(("wide", n, io))
+        for key, what, obs, req in _check_wide(n, io):
+            vs.append(Violation(key, what, {"n": n, "degree": 2, "interaction_only": io, "include_bias": True, "X": [],
+                                            "wide": True}, obs, req))
     todo = []
     # the configurations on which the correspondence disagreed come first
     for h in hints or []:
@@ -870,6 +910,8 @@ def replay(ctx, item):
     ctx.shadow(need_cython=True)
     import numpy
     inp = item["input"]
+    if inp.get("wide"):
+        return [Violation(k, w, inp, o, r) for k, w, o, r in _check_wide(inp["n"], inp["interaction_only"])]
     if inp.get("tall_rows"):
         X = _tall(inp["tall_rows"], inp["n"], inp.get("dtype", "int"))
     else:
